@@ -13,8 +13,10 @@ LEVEL_TEXT = ("Theorems in coq/Props/C02.v over Model/Graph.v, the reference sem
               "included; F28 and F49 are exhibited as refutations outside the guards. The mirror clause (each reference has "
               "exactly one back-reference) holds in the model by construction. Tie: every generated history is run on gfapy and on "
               "the model (vm_compute) and the canonical observation — written lines, virtual flags, every back-reference "
-              "collection read through its public getter, path links with direction — is compared after every operation. Partial: "
-              "closure under rename is not proved (correspondence and oracle only). The oracle checks closure, mirror "
+              "collection read through its public getter, path links with direction — is compared after every operation. Renames "
+              "are inside the theorem (Proofs/RenameP.v): with an identifier that is non-empty, not '*' and free of the list "
+              "separators, and a renamed line that does not mention itself (F50), a rename keeps Inv, so Inv holds in every "
+              "state reached by histories of add/rm/rename. The oracle checks closure, mirror "
               "multiplicities, ownership and lookup on the implementation after every step.")
 RULE = ("histories: a generated GFA1/GFA2 document added line by line in shuffled order (forward references, placeholders), "
         "followed by 1-8 operations: rm of segments/edges/groups/placeholders (fan-out up to 4 on one segment end, self-links, "
